@@ -18,6 +18,10 @@ What IS decided are necessary conditions, each of which a realistic defect break
                 small-period Two-Way (it skips what its shift memory vouches for), see
   MEMO          small-period Two-Way: after an iteration shift == 0, or the last move of `pos` was exactly
                 +period and shift + period <= needle.len()
+  POST-NONE / POST-FIRST   the packed-pair vector searcher `find` (needles of 2..=32 bytes on haystacks of at least
+                min_haystack_len) is COMPLETE: None only after every position where the needle fits was rejected
+                (pair absent, or the confirming comparison failed), Some(i) only when every position before i was --
+                masked overlapping last chunk, lane-by-lane candidate loop and both early exits included
   SPEC-POST     the empty needle answers Some(0) on every haystack
   UNION/FNPTR/TYINV  the (function pointer, union field) pairing of Searcher and Prefilter
 plus, by reference, C10 (prefilter discipline: SHIFT-PAIR, PRE-REGION) and C11 (prefilters never skip a match)."""
@@ -28,7 +32,7 @@ PID = 'C03'
 ROOTS = (r"^memmem::find$|^memmem::Finder::<.*>::(find|new(::<.*>)?)$|^memmem::FinderBuilder::(build_forward(::<.*>)?|build_forward_with_ranker(::<.*>)?)$"
          r"|^arch::all::twoway::Finder::(new|find)$|^arch::all::rabinkarp::Finder::(new|find)$"
          r"|^arch::(x86_64::sse2|x86_64::avx2|aarch64::neon|wasm32::simd128)::packedpair::Finder::(find|new|with_pair)$")
-KINDS = ('REL-POST', 'REL-PRE', 'POST-VERIFIED', 'MEMO', 'SPEC-POST', 'UNION', 'FNPTR', 'TYINV', 'DOC-PANIC')
+KINDS = ('REL-POST', 'REL-PRE', 'POST-VERIFIED', 'MEMO', 'SPEC-POST', 'UNION', 'FNPTR', 'TYINV', 'DOC-PANIC', 'POST', 'POST-NONE', 'POST-FIRST', 'AXIOM-PRE')
 FLOORS = {'REL-POST': 60, 'REL-PRE': 10, 'POST-VERIFIED': 5, 'MEMO': 1, 'UNION': 5}
 WHAT = 'forward'
 
